@@ -61,4 +61,22 @@ theorem gen_trans_unc_eq : @SLV.Gen.trans_unc = @SLV.BOp.transUnc := rfl
 theorem gen_trans_opp_eq : @SLV.Gen.trans_opp = @SLV.BOp.transOpp := rfl
 theorem gen_trans_bsr_eq : @SLV.Gen.trans_bsr = @SLV.BOp.transBsr := rfl
 
+/-- `BOpinion::deduce`.  The model returns the opinion together with a coverage tag (`DCase`, not part of
+    the Rust code) and computes `k` in the separate function `deduceK`; the Rust text has one function with
+    `match (b0 > b1, d0 > d1) { (true, true) | (false, false) => 0.0, (bp, _) => .. }` where the model writes
+    `if bp == dp`.  Case split on the four Booleans involved, then `rfl` in each of the cases. -/
+theorem gen_deduce_eq :
+    @SLV.Gen.deduce = fun (α : Type) (_ : Scalar α) (x : BOp α) (c0 c1 : α × α × α) (ay : α) =>
+      (SLV.BOp.deduce x c0 c1 ay).1 := by
+  funext α _ x c0 c1 ay
+  unfold SLV.Gen.deduce SLV.BOp.deduce SLV.BOp.deduceK
+  dsimp only
+  generalize gt c0.1 c1.1 = bp
+  generalize gt c0.2.1 c1.2.1 = dp
+  cases bp <;> cases dp <;> try rfl
+  all_goals
+    dsimp only [SLV.Gen.projection, SLV.BOp.projection]
+    simp only [Bool.false_eq_true, if_false, if_true]
+    split <;> simp only [*] <;> rfl
+
 end SLV.Gen.Tie
